@@ -11,11 +11,12 @@ type case =
   | Rdb of string * int            (* image, number of key records *)
   | RdbBad of string * string      (* what was done to the trailer / content, image *)
   | RdbSweep of string
+  | RdbPar of string list          (* images loaded by concurrent loaders (one loader per source node in the tool) *)
 
 let id = "C11"
 let rule = "random byte strings (lengths around 8, 16, 64, 256, 512, 1024, 2048, 4096, 8192 and in between) fed whole, in random pieces or in pieces cut at multiples of 8 / 64 / 512 through the three digests; DUMP payloads of random type/value; payloads with every version \
 0..12, 255..258, 65535 and a correct CRC; for each generated payload / RDB image ALL single-byte substitutions (every position x 255 values) and \
-all trailer truncations (RDB images read whole or through sources delivering at most 1, 3, 5, 7, 16 or 4096 bytes per Read), plus whole-trailer damage of RDB images (zeroed, all ones, another file's checksum, reversed; with a flipped content bit) (RDB image sweeps: content bytes < 0x40 and replacement values 0x80/0x81/0xc3 skipped, because they make the parser allocate GiB-sized buffers); non-trivial = non-empty data; distinct by wire line"
+all trailer truncations (RDB images read whole or through sources delivering at most 1, 3, 5, 7, 16 or 4096 bytes per Read), every DUMP payload the loader emits checked under both verifiers, eight loaders running concurrently, plus whole-trailer damage of RDB images (zeroed, all ones, another file's checksum, reversed; with a flipped content bit) (RDB image sweeps: content bytes < 0x40 and replacement values 0x80/0x81/0xc3 skipped, because they make the parser allocate GiB-sized buffers); non-trivial = non-empty data; distinct by wire line"
 
 let n_of_bytes_crc s = Model.ext_digest (bytes_of_string s)
 let le64 (x : Model.n) = string_of_bytes (Model.le_enc (nat_of_int 8) x)
@@ -62,6 +63,7 @@ let gen st tier =
   let sweeps = List.init (25 * k) (fun _ -> Sweep (rnd_string st (1 + rnd_int st (if thorough then 300 else 60)), rnd_pick st [ 6; 6; 6; 9; 0 ])) in
   let rdbs = List.init (60 * k) (fun _ -> let (img, n) = mk_rdb st in Rdb (img, n)) in
   let rsweeps = List.init (12 * k) (fun _ -> RdbSweep (fst (mk_rdb st))) in
+  let rpars = List.init (3 * k) (fun _ -> RdbPar (List.init 8 (fun _ -> fst (mk_rdb st)))) in
   (* whole-trailer damage: zeroed, all ones, the CRC of another body, byte-reversed; with and without a changed content byte *)
   let rbad = List.concat (List.init (10 * k) (fun _ ->
     let (img, _) = mk_rdb st in
@@ -75,7 +77,7 @@ let gen st tier =
       RdbBad ("checksum bytes all 0xff", body ^ String.make 8 '\255') ]
     @ (if otr <> tr then [ RdbBad ("checksum of another file", body ^ otr) ] else [])
     @ (if rev <> tr then [ RdbBad ("checksum bytes reversed", body ^ rev) ] else []))) in
-  digests @ dumps @ chks @ raws @ sweeps @ rdbs @ rsweeps @ rbad
+  digests @ dumps @ chks @ raws @ sweeps @ rdbs @ rsweeps @ rpars @ rbad
 
 (* F4 witness: version 256+6 with a matching CRC was accepted by CheckVersionChecksum *)
 let corpus = [ Chk ("\x00\x01a", 262); Chk ("\x00\x01a", 256); Chk ("\x00\x01a", 10); Dump (0, "\x01a") ]
@@ -93,6 +95,7 @@ let to_line = function
   | Sweep (d, v) -> "sweep " ^ hex_of_string (payload_of d v)
   | Rdb (img, _) -> Printf.sprintf "rdb %s %d" (hex_of_string img) (rdb_chunk img)
   | RdbSweep img -> "rdbsweep " ^ hex_of_string img
+  | RdbPar imgs -> "rdbpar " ^ String.concat " " (List.map hex_of_string imgs)
   | RdbBad (_, img) -> Printf.sprintf "rdb %s %d" (hex_of_string img) (rdb_chunk img)
 
 let show = function
@@ -103,6 +106,7 @@ let show = function
   | Sweep (d, v) -> Printf.sprintf "all substitutions/truncations of payload(%d data bytes, version %d)" (String.length d) v
   | Rdb (img, n) -> Printf.sprintf "RDB image of %d bytes, %d keys, read from a source delivering at most %d bytes per Read (0 = everything)" (String.length img) n (rdb_chunk img)
   | RdbSweep img -> Printf.sprintf "all substitutions/trailer truncations of an RDB image of %d bytes" (String.length img)
+  | RdbPar imgs -> Printf.sprintf "%d intact RDB images loaded by %d concurrent loaders, 20 rounds each (every emitted DUMP payload verified)" (List.length imgs) (List.length imgs)
   | RdbBad (d, img) -> Printf.sprintf "RDB image of %d bytes, %s, read in pieces of at most %d bytes (0 = whole)" (String.length img) d (rdb_chunk img)
 
 let classify = function
@@ -113,6 +117,7 @@ let classify = function
   | Sweep _ -> Some "sweep"
   | Rdb _ -> Some "rdb"
   | RdbSweep _ -> Some "rdbsweep"
+  | RdbPar _ -> Some "rdb-concurrent-loaders"
   | RdbBad _ -> Some "rdb-trailer-damage"
 
 let chk_model (p : string) =
@@ -172,6 +177,10 @@ let judge c obs =
       if Model.rdb_footer_ok (bytes_of_string img) then Agree   (* a 2^-64 accident *)
       else if String.length impl >= 3 && String.sub impl 0 3 = "err" then Agree
       else fail "oracle" "rdb-bad-checksum-accepted" "err:footer" impl "an RDB image whose trailer is not the CRC-64 of its content loads without error"
+  | RdbPar imgs ->
+      let want = String.concat "," (List.map (fun _ -> "ok") imgs) in
+      if impl = want then Agree
+      else fail "oracle" "rdb-concurrent-loaders" want impl "an intact RDB image was rejected, or a DUMP payload with a wrong checksum was emitted, while several loaders ran concurrently"
   | RdbSweep _ ->
       if impl = "0 0 -" then Agree
       else fail "oracle" "rdb-substitution-accepted" "0 0 -" impl "an RDB image with one substituted byte (position:value) or a truncated trailer loads without error"
